@@ -25,10 +25,11 @@ def run(ctx: Ctx):
 
     # ---- R10.b the transformer discards textual order -------------------------------------------
     ctx.rule("R10.b", "the transformer collects the atoms of each component into sets (discarding the order of blocks, entries and lines) before components are built", floor=3)
-    f = sm.func("transformer.py", "TreeToODE.ode")
+    from . import util
+
+    f = util.nf(ctx, "transformer.py", "TreeToODE.ode")  # private helpers expanded
     # the per-component containers
-    lambdas = [n for n in ast.walk(f.node) if isinstance(n, ast.Lambda)]
-    set_containers = any(isinstance(l.body, ast.DictComp) and norm(l.body.value) == "set()" for l in lambdas)
+    set_containers = any(isinstance(l, ast.DictComp) and norm(l.value) in ("set()", "frozenset()") for l in ast.walk(f.node))
     frozen = [n for n in ast.walk(f.node) if isinstance(n, ast.Call) and norm(n.func) == "frozenset"]
     comp_calls = [n for n in ast.walk(f.node) if isinstance(n, ast.Call) and norm(n.func).endswith("Component")]
     ctx.check(set_containers or bool(frozen), "R10.b", f.key("containers"), "atoms are gathered in sets and frozen before Component(...) is called", "TreeToODE.ode no longer gathers the atoms of a component in (frozen)sets: the order of lines in the text could reach the components", f.where())
